@@ -149,8 +149,60 @@ def linetable_stage(tier, rep):
     rep.cov["reader_calls_validated"] = sum(len(t["q"]) for t in traces)
 
 
+def _tok(t):
+    return {"ty": t.type, "tag": C.cps(t.tag), "n": t.nesting, "hid": 1 if t.hidden else 0, "blk": 1 if t.block else 0,
+            "at": [[C.cps(str(k)), C.cps(str(v))] for k, v in t.attrItems()], "c": C.cps(t.content), "info": C.cps(t.info),
+            "kids": [_tok(c) for c in (t.children or [])]}
+
+
+RCFGS = [
+    {"preset": "commonmark", "on": [], "off": [], "opts": []},
+    {"preset": "js-default", "on": [], "off": [], "opts": [["breaks", "T"], ["langPrefix", "x\"<"]]},
+    {"preset": "commonmark", "on": ["table", "strikethrough"], "off": [], "opts": [["xhtmlOut", "F"], ["inline_definitions", "T"]]},
+    {"preset": "js-default", "on": [], "off": ["text_join"], "opts": [["html", "T"], ["xhtmlOut", "T"], ["langPrefix", ""]]},
+    {"preset": "zero", "on": [], "off": [], "opts": []},
+]
+
+
+def render_record(job):
+    cfgkey, doc = job
+    if ("r", cfgkey) not in _MD:
+        _MD[("r", cfgkey)] = gen.make_md(json.loads(cfgkey))
+    md = _MD[("r", cfgkey)]
+    toks = md.parse(doc)
+    pre = [_tok(t) for t in toks]          # before rendering: the image rule writes alt into the token
+    html = md.renderer.render(toks, md.options, {})
+    o = md.options
+    return {"opts": {"x": 1 if o["xhtmlOut"] else 0, "br": 1 if o["breaks"] else 0, "lp": C.cps(o["langPrefix"])},
+            "toks": pre, "html": C.cps(html)}
+
+
+def render_stage(tier, rep):
+    """RenderTrace.tla: the specification computes the HTML of every token stream; compared with the real renderer."""
+    q = tier == "quick"
+    l1 = gen.docs("L1", tier, rep, cfg="DocGen_L1_small.cfg" if q else None)
+    l2 = gen.docs("L2", tier, rep)
+    lm = gen.docs("LM", tier, rep, wrapname="WrapM")
+    docs = gen.sample(l1, 6000 if q else 80000, C.SEED + 21, keep_short=400) + gen.sample(l2, 6000 if q else 80000, C.SEED + 22) \
+        + gen.sample(lm, 6000 if q else 80000, C.SEED + 23)
+    docs += ["- a\n  > q\n- b\n", "1. x\n\n   y\n2. z\n", "- a\n  - b\n\n    c\n", "![a *b* ![c](/d)\ne](/s \"t\")\n",
+             "``` a&amp;b c\nx\n```\n", "```\u2003py\u00a0z\n<\n```\n", "~~~ \\*x\n```\n~~~\n", "|a|\n|-|\n||\n", "<div>\n*x*\n</div>\n\n<b>i</b>\n"]
+    cfgs = [gen.cfg_key(c) for c in RCFGS]
+    jobs = [(cfgs[k % len(cfgs)], d) for k, d in enumerate(docs)]
+    traces = C.pmap(render_record, jobs, chunk=300)
+    verdicts, st = C.validate_traces("RenderTrace", traces, shard=1500, heap="8g")
+    rep.tlc_stats("RenderTrace", st, len(traces))
+    for job, (v, pos) in zip(jobs, verdicts):
+        if v != "ok":
+            rep.violation(f"{v}:{job[0]}:{json.dumps(job[1])}", {"engine": "trace", "module": "RenderTrace", "clause": v,
+                                                                 "input": {"render_config": json.loads(job[0]), "doc": job[1]}})
+    rep.cov["renders_validated"] = len(traces)
+    rep.cov["output_code_points_predicted"] = sum(len(t["html"]) for t in traces)
+
+
 def run(tier, rep):
     linetable_stage(tier, rep)
+    render_stage(tier, rep)
     q = tier == "quick"
     l1 = gen.docs("L1", tier, rep, cfg="DocGen_L1_small.cfg" if q else None)
     l2 = gen.docs("L2", tier, rep)
@@ -188,6 +240,11 @@ def run(tier, rep):
 
 def replay(case, rep):
     i = case["input"]
+    if "render_config" in i:
+        v, _ = C.validate_traces("RenderTrace", [render_record((gen.cfg_key(i["render_config"]), i["doc"]))])
+        if v[0][0] != "ok":
+            rep.violation(case.get("key", "replay"), case)
+        return
     if "linetable_src" in i:
         v, _ = C.validate_traces("LineTableTrace", [linetable_record(i["linetable_src"])])
         if v[0][0] != "ok":
@@ -206,5 +263,15 @@ def selftest():
     t["core"] = list(reversed(t["core"]))
     v, _ = C.validate_traces("SystemTrace", [t])
     assert v[0][0] == "core_order", v
-    print("selftest SYSTEM ok:", v[0])
+    r = render_record((gen.cfg_key(RCFGS[0]), "- a\n  > q *e*\n\n```py\n<\n```\n"))
+    v2, _ = C.validate_traces("RenderTrace", [r])
+    assert v2[0][0] == "ok", v2
+    r["html"] = r["html"][:-2] + r["html"][-1:]
+    v2, _ = C.validate_traces("RenderTrace", [r])
+    assert v2[0][0].startswith("render:"), v2
+    lt = linetable_record("a\n\t b\n  ")
+    lt["tab"][1][3] += 1
+    v3, _ = C.validate_traces("LineTableTrace", [lt])
+    assert v3[0][0] == "line_table", v3
+    print("selftest SYSTEM ok:", v[0], v2[0], v3[0])
     return 0
